@@ -1,1 +1,884 @@
-//! C11 harnesses (Engine K)
+//! C11 — rewards accrue at the set rate, pro rata to in-range liquidity (Engine K part).
+//!
+//! (1) the per-tick `reward_growths_outside` bookkeeping obeys the same lemmas as the fee bookkeeping of C07
+//!     (L1 growth at fixed current tick, convention for uninitialised bounds, L2 crossing, L3 (re)initialisation, L4 credit
+//!     structure), for the three rewards, Anchor functions and Pinocchio ports on the same bytes;
+//! (2) `calculate_collect_reward` (v1 and v2) == (min(owed, vault), owed - min(owed, vault));
+//! (3) `next_whirlpool_reward_infos`: timestamp check, no-op cases, growth' = growth + mul_div(dt, emissions, liquidity)
+//!     (wrapping), a mul_div overflow is dropped; `checked_mul_div` is an uninterpreted function here (its arithmetic is
+//!     Engine M's part of C11); the Pinocchio port computes the same growths.
+//! Composition over unbounded histories / position sets is a written argument (DESIGN §4).
+use crate::c07::*;
+use crate::common::*;
+use ::whirlpool::errors::ErrorCode;
+use ::whirlpool::instructions::collect_reward::verif_calculate_collect_reward;
+use ::whirlpool::instructions::v2::collect_reward::verif_calculate_collect_reward_v2;
+use ::whirlpool::manager::whirlpool_manager::next_whirlpool_reward_infos;
+use ::whirlpool::pinocchio::ported::manager_liquidity_manager::verif_pino_next_whirlpool_reward_growth_global;
+use ::whirlpool::state::*;
+
+/// closed form of reward `inside` for reward i (hint only, see c07::closed); 0 for an uninitialised reward
+fn closed_r(i: usize, cur: i32, lo: &TB, tl: i32, up: &TB, tu: i32, rw: &Rw) -> u128 {
+    if !rw.initialized(i) {
+        0
+    } else {
+        closed(cur < tl, cur < tu, t_init(lo), t_out_r(lo, i), t_init(up), t_out_r(up, i), rw.growth(i))
+    }
+}
+/// reward `inside`[i]; unless `plain`, the closed form is attached as a proved hint.
+/// The reward index is a constant of each harness: three separate goals (or one goal muxed over a symbolic index)
+/// in a single SAT instance cost CaDiCaL far more than three instances (measured 127 s -> 478 s for the mux).
+fn reward_inside_h<E: Eng>(i: usize, plain: bool, cur: i32, lo: &TB, tl: i32, up: &TB, tu: i32, rw: &Rw) -> u128 {
+    let a = E::reward_inside(cur, lo, tl, up, tu, rw)[i];
+    if !plain {
+        hint(a == closed_r(i, cur, lo, tl, up, tu, rw));
+    }
+    a
+}
+
+/// L1 (reward i), both bounds initialised: growth_global[i] += x at fixed current tick changes reward `inside`[i] by
+/// x iff the reward is initialised and lower <= cur < upper; otherwise not at all (an uninitialised reward reads 0).
+fn r_l1<E: Eng>(i: usize, place: u8) {
+    let lo = any_tick();
+    let up = any_tick();
+    let tl: i32 = kani::any();
+    let tu: i32 = kani::any();
+    let cur: i32 = kani::any();
+    let rw = Rw::any();
+    let x: u128 = kani::any();
+    kani::assume(tl < tu);
+    kani::assume(t_init(&lo) && t_init(&up));
+    assume_place(place, cur, tl, tu);
+    let mut g = rw.growths();
+    g[i] = g[i].wrapping_add(x);
+    let rw1 = rw.with_growths(&g);
+
+    let i0 = reward_inside_h::<E>(i, place == INSIDE, cur, &lo, tl, &up, tu, &rw);
+    let i1 = reward_inside_h::<E>(i, place == INSIDE, cur, &lo, tl, &up, tu, &rw1);
+    let in_range = tl <= cur && cur < tu;
+    assert!(i1.wrapping_sub(i0) == if in_range && rw.initialized(i) { x } else { 0 });
+    kani::cover!(rw.initialized(i) && x != 0 && rw.growth(i).checked_add(x).is_none(), "initialised reward, accumulator wraps");
+    kani::cover!(!rw.initialized(i) && x != 0, "uninitialised reward");
+}
+
+/// convention for uninitialised bounds (reward i): see c07::conv
+fn r_conv<E: Eng>(i: usize, place: u8) {
+    let lo = any_tick();
+    let up = any_tick();
+    let tl: i32 = kani::any();
+    let tu: i32 = kani::any();
+    let cur: i32 = kani::any();
+    let ga: u128 = kani::any();
+    let gb: u128 = kani::any();
+    let rw = Rw::any();
+    let dl: i128 = kani::any();
+    let du: i128 = kani::any();
+    kani::assume(tl < tu);
+    kani::assume(dl > 0 && du > 0);
+    kani::assume(!t_init(&lo) || !t_init(&up));
+    assume_tick_inv(&lo);
+    assume_tick_inv(&up);
+    assume_place(place, cur, tl, tu);
+
+    let elo = effective::<E>(&lo, tl, cur, ga, gb, &rw, dl, false);
+    let eup = effective::<E>(&up, tu, cur, ga, gb, &rw, du, true);
+    let i0 = reward_inside_h::<E>(i, false, cur, &lo, tl, &up, tu, &rw);
+    let ie = reward_inside_h::<E>(i, false, cur, &elo, tl, &eup, tu, &rw);
+    assert!(i0 == ie, "uninitialised-bound convention == freshly initialised tick");
+
+    kani::cover!(!t_init(&lo) && !t_init(&up) && rw.initialized(i), "both fresh");
+    kani::cover!(t_init(&lo) && !t_init(&up) && rw.initialized(i), "upper fresh");
+    kani::cover!(!t_init(&lo) && t_init(&up) && rw.initialized(i), "lower fresh");
+}
+
+/// L2 (reward i): crossing tick t (`next_tick_cross_update` flips outside[i] := growth_global[i] - outside[i] for an
+/// initialised reward, keeps it otherwise) with the loop's new current tick leaves reward `inside`[i] of every range
+/// unchanged.
+fn r_l2<E: Eng>(idx: Option<usize>, which: u8, a_to_b: bool) {
+    let lo = any_tick();
+    let up = any_tick();
+    let tl: i32 = kani::any();
+    let tu: i32 = kani::any();
+    let t: i32 = kani::any();
+    let cur0: i32 = kani::any();
+    let ga: u128 = kani::any();
+    let gb: u128 = kani::any();
+    let rw = Rw::any();
+    let i = match idx {
+        Some(i) => i,
+        None => {
+            let i: usize = kani::any();
+            kani::assume(i < 3);
+            i
+        }
+    };
+    kani::assume(tl < tu);
+    let (cur1, nlo, nup) = crossing(which, &lo, tl, &up, tu, t, cur0, a_to_b, ga, gb, &rw);
+    if which != OTHER {
+        // the flip itself
+        let (o, n) = if which == LOWER { (&lo, &nlo) } else { (&up, &nup) };
+        hint(t_out_r(n, i) == if rw.initialized(i) { rw.growth(i).wrapping_sub(t_out_r(o, i)) } else { t_out_r(o, i) });
+    } else {
+        same_side_hints(&lo, tl, &up, tu, cur0, cur1);
+    }
+
+    let i0 = reward_inside_h::<E>(i, which == OTHER, cur0, &lo, tl, &up, tu, &rw);
+    let i1 = reward_inside_h::<E>(i, which == OTHER, cur1, &nlo, tl, &nup, tu, &rw);
+    assert!(i0 == i1, "crossing leaves reward inside unchanged");
+
+    let both = t_init(&lo) && t_init(&up);
+    kani::cover!(both && rw.initialized(i), "initialised reward, both bounds initialised");
+    kani::cover!(!rw.initialized(i), "an uninitialised reward");
+    kani::cover!(if which == OTHER { tl < t && t < tu && both } else { !both }, "OTHER: crossed tick strictly inside / bound: other bound uninitialised");
+}
+
+/// L3 (rewards): first liquidity on an empty tick sets reward outside[i] := growth_global[i] (all three) if
+/// tick_index <= cur else 0; a tick that stays in use keeps them (so reward `inside` of other ranges sharing the
+/// bound is unchanged).
+fn r_l3<E: Eng>() {
+    let t = any_tick();
+    let idx: i32 = kani::any();
+    let cur: i32 = kani::any();
+    let ga: u128 = kani::any();
+    let gb: u128 = kani::any();
+    let rw = Rw::any();
+    let delta: i128 = kani::any();
+    let upper: bool = kani::any();
+    assume_tick_inv(&t);
+    kani::assume(delta != 0);
+
+    let r = E::modify(&t, idx, cur, ga, gb, &rw, delta, upper);
+    kani::cover!(r.is_ok() && !t_init(&t) && idx == cur, "fresh initialisation, tick_index == current");
+    kani::cover!(r.is_ok() && t_init(&t) && delta < 0, "decrease of a tick in use");
+    if let Ok(n) = r {
+        if t_gross(&t) == 0 {
+            for i in 0..3 {
+                assert!(t_out_r(&n, i) == if idx <= cur { rw.growth(i) } else { 0 });
+            }
+        } else if t_gross(&n) != 0 {
+            // `initialized` stays set (c07 L3) and the reward values that `next_reward_growths_inside` reads are untouched
+            for i in 0..3 {
+                assert!(t_out_r(&n, i) == t_out_r(&t, i));
+            }
+        }
+    }
+}
+
+/// frame: reward `inside` reads nothing of a tick but `initialized` and `reward_growths_outside` — two ticks that agree
+/// on these give the same result whatever their liquidity / fee fields (so "outside untouched" => `inside` of every
+/// range sharing the bound is untouched).
+fn r_frame<E: Eng>() {
+    let lo = any_tick();
+    let up = any_tick();
+    let lo2 = any_tick();
+    let up2 = any_tick();
+    let tl: i32 = kani::any();
+    let tu: i32 = kani::any();
+    let cur: i32 = kani::any();
+    let rw = Rw::any();
+    kani::assume(tl < tu);
+    kani::assume(t_init(&lo) == t_init(&lo2) && t_init(&up) == t_init(&up2));
+    for i in 0..3 {
+        kani::assume(t_out_r(&lo, i) == t_out_r(&lo2, i) && t_out_r(&up, i) == t_out_r(&up2, i));
+    }
+    let a = E::reward_inside(cur, &lo, tl, &up, tu, &rw);
+    let b = E::reward_inside(cur, &lo2, tl, &up2, tu, &rw);
+    assert!(a[0] == b[0] && a[1] == b[1] && a[2] == b[2]);
+    kani::cover!(t_gross(&lo) != t_gross(&lo2) && t_out_a(&up) != t_out_a(&up2) && rw.initialized(0), "other fields differ");
+}
+
+/// L4 (rewards, structure): amount_owed[i]' == amount_owed[i] + (F(L, inside[i] - checkpoint[i] mod 2^128) or 0 if F
+/// overflows) (wrapping u64), checkpoint[i]' == inside[i]; F = `checked_mul_shift_right` uninterpreted (c07::stub_mul_shift).
+fn r_l4<E: Eng>() {
+    let (p, delta, ia, ib, ri, credit, failed) = l4_setup();
+    let l = rd128(&p, 72);
+
+    let r = E::pos_update(&p, delta, ia, ib, &ri);
+
+    assert!(!mul_shift_bad(), "F is only applied to (L, inside_x - checkpoint_x)");
+    kani::cover!(r.is_ok() && failed[3], "overflowing credit dropped");
+    kani::cover!(r.is_ok() && credit[4] != 0, "non-zero credit");
+    if let Ok(u) = &r {
+        for i in 0..3 {
+            let owed = rd64(&p, 160 + 24 * i);
+            assert!(u.reward_infos[i].growth_inside_checkpoint == ri[i]);
+            assert!(u.reward_infos[i].amount_owed == owed.wrapping_add(credit[2 + i]), "reward credit = F(L, inside - checkpoint), 0 on overflow");
+            if l == 0 {
+                assert!(u.reward_infos[i].amount_owed == owed);
+            }
+        }
+    }
+}
+
+// ------------------------------------------------------------------------------------------------
+// collect
+
+fn collect_spec(owed: u64, vault: u64) -> (u64, u64) {
+    let pay = if owed < vault { owed } else { vault };
+    (pay, owed - pay)
+}
+
+// ------------------------------------------------------------------------------------------------
+// global accumulator
+
+// `checked_mul_div` as an uninterpreted function F, Ackermann style: within one run it can only be asked about
+// (dt, emissions[i], liquidity), so the three outcomes are drawn up front and constrained to be functionally
+// consistent (equal arguments => equal outcome); exact where that is free (d == 0 => DivideByZero, zero factor => 0).
+// Any call with other arguments sets NW_BAD, which the harness asserts to be false ("which arguments are passed").
+// (common::memo::stub_checked_mul_div is the same idea with a dynamic table; its symbolic table length made this
+// harness 263 s, this form 10x less.)
+static mut NW_DT: u128 = 0;
+static mut NW_L: u128 = 0;
+static mut NW_E: [u128; 3] = [0; 3];
+static mut NW_OK: [bool; 3] = [true; 3];
+static mut NW_V: [u128; 3] = [0; 3];
+static mut NW_BAD: bool = false;
+static mut NW_CALLS: u8 = 0;
+
+pub(crate) fn stub_mul_div(n0: u128, n1: u128, d: u128) -> Result<u128, ErrorCode> {
+    unsafe {
+        NW_CALLS += 1;
+        if d == 0 {
+            return Err(ErrorCode::DivideByZero);
+        }
+        if n0 != NW_DT || d != NW_L {
+            NW_BAD = true;
+            return Ok(0);
+        }
+        let mut k = 0;
+        while k < 3 {
+            if NW_E[k] == n1 {
+                return if NW_OK[k] { Ok(NW_V[k]) } else { Err(ErrorCode::MulDivOverflow) };
+            }
+            k += 1;
+        }
+        NW_BAD = true;
+        Ok(0)
+    }
+}
+
+fn same_info(a: &WhirlpoolRewardInfo, b: &WhirlpoolRewardInfo) -> bool {
+    key_eq(&a.mint.to_bytes(), &b.mint.to_bytes())
+        && key_eq(&a.vault.to_bytes(), &b.vault.to_bytes())
+        && key_eq(&a.extension, &b.extension)
+        && a.emissions_per_second_x64 == b.emissions_per_second_x64
+        && a.growth_global_x64 == b.growth_global_x64
+}
+
+/// `next_whirlpool_reward_infos` on every whirlpool account and timestamp, F = uninterpreted `checked_mul_div`:
+/// next < last => Err(InvalidTimestamp); liquidity == 0 or next == last => unchanged; per reward: uninitialised =>
+/// unchanged, else growth' = growth + (F(next - last, emissions, liquidity) or 0 if F fails) wrapping, nothing else
+/// changes. `pino_next_whirlpool_reward_growth_global` on the same bytes returns the same three growths / the same error
+/// (it skips on emissions == 0 instead of on the mint: equal under the reachable-state invariant
+/// "uninitialised reward => emissions == 0", assumed).
+fn nwri() {
+    let b: WB = any_whirlpool();
+    let next: u64 = kani::any();
+    let ok: [bool; 3] = kani::any();
+    let v: [u128; 3] = kani::any();
+    let w = wp_of(&b);
+    let rw = w_rw(&b);
+    let last = rd64(&b, W_REWARD_TS);
+    let liq = rd128(&b, W_LIQUIDITY);
+    let dt = (next as u128).wrapping_sub(last as u128);
+    for i in 0..3 {
+        // set_reward_emissions needs reward_infos[i].vault to be a token account, impossible for the default key
+        kani::assume(rw.initialized(i) || rw.emissions(i) == 0);
+        // F is a function, and F(_, 0, _) == F(0, _, _) == Ok(0)
+        if rw.emissions(i) == 0 || dt == 0 {
+            kani::assume(ok[i] && v[i] == 0);
+        }
+        for j in 0..i {
+            if rw.emissions(i) == rw.emissions(j) {
+                kani::assume(ok[i] == ok[j] && v[i] == v[j]);
+            }
+        }
+    }
+    unsafe {
+        NW_DT = dt;
+        NW_L = liq;
+        NW_E = [rw.emissions(0), rw.emissions(1), rw.emissions(2)];
+        NW_OK = ok;
+        NW_V = v;
+    }
+
+    let a = next_whirlpool_reward_infos(&w, next);
+    let p = verif_pino_next_whirlpool_reward_growth_global(mwp(&b), next);
+
+    assert!(unsafe { !NW_BAD }, "checked_mul_div is only applied to (next - last, emissions[i], liquidity)");
+    kani::cover!(a.is_err(), "invalid timestamp");
+    kani::cover!(a.is_ok() && liq == 0 && next > last, "no liquidity");
+    kani::cover!(a.is_ok() && liq != 0 && next == last, "no time passed");
+    match (&a, &p) {
+        (Err(e), Err(pe)) => {
+            assert!(next < last);
+            assert!(ecode(*e) == ecode(ErrorCode::InvalidTimestamp) && ucode(pe) == ecode(ErrorCode::InvalidTimestamp));
+            assert!(unsafe { NW_CALLS } == 0);
+        }
+        (Ok(n), Ok(pg)) => {
+            assert!(next >= last);
+            let active = liq != 0 && next != last;
+            if !active {
+                assert!(unsafe { NW_CALLS } == 0);
+            }
+            for i in 0..3 {
+                let mut e = w.reward_infos[i];
+                if active && rw.initialized(i) {
+                    e.growth_global_x64 = rw.growth(i).wrapping_add(if ok[i] { v[i] } else { 0 });
+                }
+                assert!(same_info(&n[i], &e), "Anchor: growth' = growth + F(dt, emissions, liquidity), overflow dropped, rest unchanged");
+                assert!(pg[i] == e.growth_global_x64, "Pinocchio port: same growth");
+            }
+            kani::cover!(active && rw.initialized(0) && !ok[0], "overflowing interval dropped");
+            kani::cover!(active && rw.initialized(1) && ok[1] && v[1] != 0, "growth");
+            kani::cover!(active && !rw.initialized(2) && rw.initialized(0), "uninitialised reward skipped");
+        }
+        _ => assert!(false, "Anchor and Pinocchio disagree on the outcome kind"),
+    }
+    core::mem::forget(p);
+}
+
+// ------------------------------------------------------------------------------------------------
+// harnesses. L1 / convention / L2-on-a-bound: one per (reward index, case) on the Anchor functions; the Pinocchio port
+// `pino_next_reward_growths_inside` is proved equal to `next_reward_growths_inside` on all inputs
+// (c11_pino_equiv_reward_inside), so these lemmas hold for it by substitution; L3 / frame / L4 are decided for both.
+
+/// L1 reward 0, `next_reward_growths_inside`: growth_global[0] += x at fixed current tick, cur < lower: unchanged; both bounds initialised, all u128 values
+// @verif prop=C11 tier=quick timeout=300
+#[kani::proof]
+#[kani::unwind(34)]
+#[kani::stub(alloc::fmt::format, stub_format)]
+#[kani::stub(<anchor_lang::error::Error as core::convert::From<::whirlpool::errors::ErrorCode>>::from, stub_err_from_code)]
+#[kani::stub(<::whirlpool::pinocchio::errors::UnifiedError as core::convert::From<::whirlpool::errors::ErrorCode>>::from, stub_unified_from_code)]
+fn c11_l1_r0_below() {
+    r_l1::<Anchor>(0, BELOW);
+}
+
+/// L1 reward 0, `next_reward_growths_inside`: growth_global[0] += x at fixed current tick, lower <= cur < upper: grows by exactly x if the reward is initialised; both bounds initialised, all u128 values
+// @verif prop=C11 tier=quick timeout=300
+#[kani::proof]
+#[kani::unwind(34)]
+#[kani::stub(alloc::fmt::format, stub_format)]
+#[kani::stub(<anchor_lang::error::Error as core::convert::From<::whirlpool::errors::ErrorCode>>::from, stub_err_from_code)]
+#[kani::stub(<::whirlpool::pinocchio::errors::UnifiedError as core::convert::From<::whirlpool::errors::ErrorCode>>::from, stub_unified_from_code)]
+fn c11_l1_r0_inside() {
+    r_l1::<Anchor>(0, INSIDE);
+}
+
+/// L1 reward 0, `next_reward_growths_inside`: growth_global[0] += x at fixed current tick, cur >= upper: unchanged; both bounds initialised, all u128 values
+// @verif prop=C11 tier=quick timeout=300
+#[kani::proof]
+#[kani::unwind(34)]
+#[kani::stub(alloc::fmt::format, stub_format)]
+#[kani::stub(<anchor_lang::error::Error as core::convert::From<::whirlpool::errors::ErrorCode>>::from, stub_err_from_code)]
+#[kani::stub(<::whirlpool::pinocchio::errors::UnifiedError as core::convert::From<::whirlpool::errors::ErrorCode>>::from, stub_unified_from_code)]
+fn c11_l1_r0_above() {
+    r_l1::<Anchor>(0, ABOVE);
+}
+
+/// L1 reward 1, `next_reward_growths_inside`: growth_global[1] += x at fixed current tick, cur < lower: unchanged; both bounds initialised, all u128 values
+// @verif prop=C11 tier=quick timeout=300
+#[kani::proof]
+#[kani::unwind(34)]
+#[kani::stub(alloc::fmt::format, stub_format)]
+#[kani::stub(<anchor_lang::error::Error as core::convert::From<::whirlpool::errors::ErrorCode>>::from, stub_err_from_code)]
+#[kani::stub(<::whirlpool::pinocchio::errors::UnifiedError as core::convert::From<::whirlpool::errors::ErrorCode>>::from, stub_unified_from_code)]
+fn c11_l1_r1_below() {
+    r_l1::<Anchor>(1, BELOW);
+}
+
+/// L1 reward 1, `next_reward_growths_inside`: growth_global[1] += x at fixed current tick, lower <= cur < upper: grows by exactly x if the reward is initialised; both bounds initialised, all u128 values
+// @verif prop=C11 tier=quick timeout=300
+#[kani::proof]
+#[kani::unwind(34)]
+#[kani::stub(alloc::fmt::format, stub_format)]
+#[kani::stub(<anchor_lang::error::Error as core::convert::From<::whirlpool::errors::ErrorCode>>::from, stub_err_from_code)]
+#[kani::stub(<::whirlpool::pinocchio::errors::UnifiedError as core::convert::From<::whirlpool::errors::ErrorCode>>::from, stub_unified_from_code)]
+fn c11_l1_r1_inside() {
+    r_l1::<Anchor>(1, INSIDE);
+}
+
+/// L1 reward 1, `next_reward_growths_inside`: growth_global[1] += x at fixed current tick, cur >= upper: unchanged; both bounds initialised, all u128 values
+// @verif prop=C11 tier=quick timeout=300
+#[kani::proof]
+#[kani::unwind(34)]
+#[kani::stub(alloc::fmt::format, stub_format)]
+#[kani::stub(<anchor_lang::error::Error as core::convert::From<::whirlpool::errors::ErrorCode>>::from, stub_err_from_code)]
+#[kani::stub(<::whirlpool::pinocchio::errors::UnifiedError as core::convert::From<::whirlpool::errors::ErrorCode>>::from, stub_unified_from_code)]
+fn c11_l1_r1_above() {
+    r_l1::<Anchor>(1, ABOVE);
+}
+
+/// L1 reward 2, `next_reward_growths_inside`: growth_global[2] += x at fixed current tick, cur < lower: unchanged; both bounds initialised, all u128 values
+// @verif prop=C11 tier=quick timeout=300
+#[kani::proof]
+#[kani::unwind(34)]
+#[kani::stub(alloc::fmt::format, stub_format)]
+#[kani::stub(<anchor_lang::error::Error as core::convert::From<::whirlpool::errors::ErrorCode>>::from, stub_err_from_code)]
+#[kani::stub(<::whirlpool::pinocchio::errors::UnifiedError as core::convert::From<::whirlpool::errors::ErrorCode>>::from, stub_unified_from_code)]
+fn c11_l1_r2_below() {
+    r_l1::<Anchor>(2, BELOW);
+}
+
+/// L1 reward 2, `next_reward_growths_inside`: growth_global[2] += x at fixed current tick, lower <= cur < upper: grows by exactly x if the reward is initialised; both bounds initialised, all u128 values
+// @verif prop=C11 tier=quick timeout=300
+#[kani::proof]
+#[kani::unwind(34)]
+#[kani::stub(alloc::fmt::format, stub_format)]
+#[kani::stub(<anchor_lang::error::Error as core::convert::From<::whirlpool::errors::ErrorCode>>::from, stub_err_from_code)]
+#[kani::stub(<::whirlpool::pinocchio::errors::UnifiedError as core::convert::From<::whirlpool::errors::ErrorCode>>::from, stub_unified_from_code)]
+fn c11_l1_r2_inside() {
+    r_l1::<Anchor>(2, INSIDE);
+}
+
+/// L1 reward 2, `next_reward_growths_inside`: growth_global[2] += x at fixed current tick, cur >= upper: unchanged; both bounds initialised, all u128 values
+// @verif prop=C11 tier=quick timeout=300
+#[kani::proof]
+#[kani::unwind(34)]
+#[kani::stub(alloc::fmt::format, stub_format)]
+#[kani::stub(<anchor_lang::error::Error as core::convert::From<::whirlpool::errors::ErrorCode>>::from, stub_err_from_code)]
+#[kani::stub(<::whirlpool::pinocchio::errors::UnifiedError as core::convert::From<::whirlpool::errors::ErrorCode>>::from, stub_unified_from_code)]
+fn c11_l1_r2_above() {
+    r_l1::<Anchor>(2, ABOVE);
+}
+
+/// L1/L3 reward 0 `next_reward_growths_inside` + `next_tick_modify_liquidity_update`: an uninitialised bound counts exactly like the tick the first deposit creates (3 combinations with an uninitialised bound), current tick below
+// @verif prop=C11 tier=quick timeout=300
+#[kani::proof]
+#[kani::unwind(34)]
+#[kani::stub(alloc::fmt::format, stub_format)]
+#[kani::stub(<anchor_lang::error::Error as core::convert::From<::whirlpool::errors::ErrorCode>>::from, stub_err_from_code)]
+#[kani::stub(<::whirlpool::pinocchio::errors::UnifiedError as core::convert::From<::whirlpool::errors::ErrorCode>>::from, stub_unified_from_code)]
+fn c11_conv_r0_below() {
+    r_conv::<Anchor>(0, BELOW);
+}
+
+/// L1/L3 reward 0 `next_reward_growths_inside` + `next_tick_modify_liquidity_update`: an uninitialised bound counts exactly like the tick the first deposit creates (3 combinations with an uninitialised bound), current tick inside
+// @verif prop=C11 tier=quick timeout=300
+#[kani::proof]
+#[kani::unwind(34)]
+#[kani::stub(alloc::fmt::format, stub_format)]
+#[kani::stub(<anchor_lang::error::Error as core::convert::From<::whirlpool::errors::ErrorCode>>::from, stub_err_from_code)]
+#[kani::stub(<::whirlpool::pinocchio::errors::UnifiedError as core::convert::From<::whirlpool::errors::ErrorCode>>::from, stub_unified_from_code)]
+fn c11_conv_r0_inside() {
+    r_conv::<Anchor>(0, INSIDE);
+}
+
+/// L1/L3 reward 0 `next_reward_growths_inside` + `next_tick_modify_liquidity_update`: an uninitialised bound counts exactly like the tick the first deposit creates (3 combinations with an uninitialised bound), current tick above
+// @verif prop=C11 tier=quick timeout=300
+#[kani::proof]
+#[kani::unwind(34)]
+#[kani::stub(alloc::fmt::format, stub_format)]
+#[kani::stub(<anchor_lang::error::Error as core::convert::From<::whirlpool::errors::ErrorCode>>::from, stub_err_from_code)]
+#[kani::stub(<::whirlpool::pinocchio::errors::UnifiedError as core::convert::From<::whirlpool::errors::ErrorCode>>::from, stub_unified_from_code)]
+fn c11_conv_r0_above() {
+    r_conv::<Anchor>(0, ABOVE);
+}
+
+/// L1/L3 reward 1 `next_reward_growths_inside` + `next_tick_modify_liquidity_update`: an uninitialised bound counts exactly like the tick the first deposit creates (3 combinations with an uninitialised bound), current tick below
+// @verif prop=C11 tier=quick timeout=300
+#[kani::proof]
+#[kani::unwind(34)]
+#[kani::stub(alloc::fmt::format, stub_format)]
+#[kani::stub(<anchor_lang::error::Error as core::convert::From<::whirlpool::errors::ErrorCode>>::from, stub_err_from_code)]
+#[kani::stub(<::whirlpool::pinocchio::errors::UnifiedError as core::convert::From<::whirlpool::errors::ErrorCode>>::from, stub_unified_from_code)]
+fn c11_conv_r1_below() {
+    r_conv::<Anchor>(1, BELOW);
+}
+
+/// L1/L3 reward 1 `next_reward_growths_inside` + `next_tick_modify_liquidity_update`: an uninitialised bound counts exactly like the tick the first deposit creates (3 combinations with an uninitialised bound), current tick inside
+// @verif prop=C11 tier=quick timeout=300
+#[kani::proof]
+#[kani::unwind(34)]
+#[kani::stub(alloc::fmt::format, stub_format)]
+#[kani::stub(<anchor_lang::error::Error as core::convert::From<::whirlpool::errors::ErrorCode>>::from, stub_err_from_code)]
+#[kani::stub(<::whirlpool::pinocchio::errors::UnifiedError as core::convert::From<::whirlpool::errors::ErrorCode>>::from, stub_unified_from_code)]
+fn c11_conv_r1_inside() {
+    r_conv::<Anchor>(1, INSIDE);
+}
+
+/// L1/L3 reward 1 `next_reward_growths_inside` + `next_tick_modify_liquidity_update`: an uninitialised bound counts exactly like the tick the first deposit creates (3 combinations with an uninitialised bound), current tick above
+// @verif prop=C11 tier=quick timeout=300
+#[kani::proof]
+#[kani::unwind(34)]
+#[kani::stub(alloc::fmt::format, stub_format)]
+#[kani::stub(<anchor_lang::error::Error as core::convert::From<::whirlpool::errors::ErrorCode>>::from, stub_err_from_code)]
+#[kani::stub(<::whirlpool::pinocchio::errors::UnifiedError as core::convert::From<::whirlpool::errors::ErrorCode>>::from, stub_unified_from_code)]
+fn c11_conv_r1_above() {
+    r_conv::<Anchor>(1, ABOVE);
+}
+
+/// L1/L3 reward 2 `next_reward_growths_inside` + `next_tick_modify_liquidity_update`: an uninitialised bound counts exactly like the tick the first deposit creates (3 combinations with an uninitialised bound), current tick below
+// @verif prop=C11 tier=quick timeout=300
+#[kani::proof]
+#[kani::unwind(34)]
+#[kani::stub(alloc::fmt::format, stub_format)]
+#[kani::stub(<anchor_lang::error::Error as core::convert::From<::whirlpool::errors::ErrorCode>>::from, stub_err_from_code)]
+#[kani::stub(<::whirlpool::pinocchio::errors::UnifiedError as core::convert::From<::whirlpool::errors::ErrorCode>>::from, stub_unified_from_code)]
+fn c11_conv_r2_below() {
+    r_conv::<Anchor>(2, BELOW);
+}
+
+/// L1/L3 reward 2 `next_reward_growths_inside` + `next_tick_modify_liquidity_update`: an uninitialised bound counts exactly like the tick the first deposit creates (3 combinations with an uninitialised bound), current tick inside
+// @verif prop=C11 tier=quick timeout=300
+#[kani::proof]
+#[kani::unwind(34)]
+#[kani::stub(alloc::fmt::format, stub_format)]
+#[kani::stub(<anchor_lang::error::Error as core::convert::From<::whirlpool::errors::ErrorCode>>::from, stub_err_from_code)]
+#[kani::stub(<::whirlpool::pinocchio::errors::UnifiedError as core::convert::From<::whirlpool::errors::ErrorCode>>::from, stub_unified_from_code)]
+fn c11_conv_r2_inside() {
+    r_conv::<Anchor>(2, INSIDE);
+}
+
+/// L1/L3 reward 2 `next_reward_growths_inside` + `next_tick_modify_liquidity_update`: an uninitialised bound counts exactly like the tick the first deposit creates (3 combinations with an uninitialised bound), current tick above
+// @verif prop=C11 tier=quick timeout=300
+#[kani::proof]
+#[kani::unwind(34)]
+#[kani::stub(alloc::fmt::format, stub_format)]
+#[kani::stub(<anchor_lang::error::Error as core::convert::From<::whirlpool::errors::ErrorCode>>::from, stub_err_from_code)]
+#[kani::stub(<::whirlpool::pinocchio::errors::UnifiedError as core::convert::From<::whirlpool::errors::ErrorCode>>::from, stub_unified_from_code)]
+fn c11_conv_r2_above() {
+    r_conv::<Anchor>(2, ABOVE);
+}
+
+/// L2 reward 0: `next_tick_cross_update` flips reward outside of an initialised reward; crossing leaves reward `inside` of range [lower, upper) unchanged; t == lower, a_to_b
+// @verif prop=C11 tier=quick timeout=300
+#[kani::proof]
+#[kani::unwind(34)]
+#[kani::stub(alloc::fmt::format, stub_format)]
+#[kani::stub(<anchor_lang::error::Error as core::convert::From<::whirlpool::errors::ErrorCode>>::from, stub_err_from_code)]
+#[kani::stub(<::whirlpool::pinocchio::errors::UnifiedError as core::convert::From<::whirlpool::errors::ErrorCode>>::from, stub_unified_from_code)]
+fn c11_l2_r0_lower_down() {
+    r_l2::<Anchor>(Some(0), LOWER, true);
+}
+
+/// L2 reward 0: `next_tick_cross_update` flips reward outside of an initialised reward; crossing leaves reward `inside` of range [lower, upper) unchanged; t == lower, b_to_a
+// @verif prop=C11 tier=quick timeout=300
+#[kani::proof]
+#[kani::unwind(34)]
+#[kani::stub(alloc::fmt::format, stub_format)]
+#[kani::stub(<anchor_lang::error::Error as core::convert::From<::whirlpool::errors::ErrorCode>>::from, stub_err_from_code)]
+#[kani::stub(<::whirlpool::pinocchio::errors::UnifiedError as core::convert::From<::whirlpool::errors::ErrorCode>>::from, stub_unified_from_code)]
+fn c11_l2_r0_lower_up() {
+    r_l2::<Anchor>(Some(0), LOWER, false);
+}
+
+/// L2 reward 0: `next_tick_cross_update` flips reward outside of an initialised reward; crossing leaves reward `inside` of range [lower, upper) unchanged; t == upper, a_to_b
+// @verif prop=C11 tier=quick timeout=300
+#[kani::proof]
+#[kani::unwind(34)]
+#[kani::stub(alloc::fmt::format, stub_format)]
+#[kani::stub(<anchor_lang::error::Error as core::convert::From<::whirlpool::errors::ErrorCode>>::from, stub_err_from_code)]
+#[kani::stub(<::whirlpool::pinocchio::errors::UnifiedError as core::convert::From<::whirlpool::errors::ErrorCode>>::from, stub_unified_from_code)]
+fn c11_l2_r0_upper_down() {
+    r_l2::<Anchor>(Some(0), UPPER, true);
+}
+
+/// L2 reward 0: `next_tick_cross_update` flips reward outside of an initialised reward; crossing leaves reward `inside` of range [lower, upper) unchanged; t == upper, b_to_a
+// @verif prop=C11 tier=quick timeout=300
+#[kani::proof]
+#[kani::unwind(34)]
+#[kani::stub(alloc::fmt::format, stub_format)]
+#[kani::stub(<anchor_lang::error::Error as core::convert::From<::whirlpool::errors::ErrorCode>>::from, stub_err_from_code)]
+#[kani::stub(<::whirlpool::pinocchio::errors::UnifiedError as core::convert::From<::whirlpool::errors::ErrorCode>>::from, stub_unified_from_code)]
+fn c11_l2_r0_upper_up() {
+    r_l2::<Anchor>(Some(0), UPPER, false);
+}
+
+/// L2 reward 1: `next_tick_cross_update` flips reward outside of an initialised reward; crossing leaves reward `inside` of range [lower, upper) unchanged; t == lower, a_to_b
+// @verif prop=C11 tier=quick timeout=300
+#[kani::proof]
+#[kani::unwind(34)]
+#[kani::stub(alloc::fmt::format, stub_format)]
+#[kani::stub(<anchor_lang::error::Error as core::convert::From<::whirlpool::errors::ErrorCode>>::from, stub_err_from_code)]
+#[kani::stub(<::whirlpool::pinocchio::errors::UnifiedError as core::convert::From<::whirlpool::errors::ErrorCode>>::from, stub_unified_from_code)]
+fn c11_l2_r1_lower_down() {
+    r_l2::<Anchor>(Some(1), LOWER, true);
+}
+
+/// L2 reward 1: `next_tick_cross_update` flips reward outside of an initialised reward; crossing leaves reward `inside` of range [lower, upper) unchanged; t == lower, b_to_a
+// @verif prop=C11 tier=quick timeout=300
+#[kani::proof]
+#[kani::unwind(34)]
+#[kani::stub(alloc::fmt::format, stub_format)]
+#[kani::stub(<anchor_lang::error::Error as core::convert::From<::whirlpool::errors::ErrorCode>>::from, stub_err_from_code)]
+#[kani::stub(<::whirlpool::pinocchio::errors::UnifiedError as core::convert::From<::whirlpool::errors::ErrorCode>>::from, stub_unified_from_code)]
+fn c11_l2_r1_lower_up() {
+    r_l2::<Anchor>(Some(1), LOWER, false);
+}
+
+/// L2 reward 1: `next_tick_cross_update` flips reward outside of an initialised reward; crossing leaves reward `inside` of range [lower, upper) unchanged; t == upper, a_to_b
+// @verif prop=C11 tier=quick timeout=300
+#[kani::proof]
+#[kani::unwind(34)]
+#[kani::stub(alloc::fmt::format, stub_format)]
+#[kani::stub(<anchor_lang::error::Error as core::convert::From<::whirlpool::errors::ErrorCode>>::from, stub_err_from_code)]
+#[kani::stub(<::whirlpool::pinocchio::errors::UnifiedError as core::convert::From<::whirlpool::errors::ErrorCode>>::from, stub_unified_from_code)]
+fn c11_l2_r1_upper_down() {
+    r_l2::<Anchor>(Some(1), UPPER, true);
+}
+
+/// L2 reward 1: `next_tick_cross_update` flips reward outside of an initialised reward; crossing leaves reward `inside` of range [lower, upper) unchanged; t == upper, b_to_a
+// @verif prop=C11 tier=quick timeout=300
+#[kani::proof]
+#[kani::unwind(34)]
+#[kani::stub(alloc::fmt::format, stub_format)]
+#[kani::stub(<anchor_lang::error::Error as core::convert::From<::whirlpool::errors::ErrorCode>>::from, stub_err_from_code)]
+#[kani::stub(<::whirlpool::pinocchio::errors::UnifiedError as core::convert::From<::whirlpool::errors::ErrorCode>>::from, stub_unified_from_code)]
+fn c11_l2_r1_upper_up() {
+    r_l2::<Anchor>(Some(1), UPPER, false);
+}
+
+/// L2 reward 2: `next_tick_cross_update` flips reward outside of an initialised reward; crossing leaves reward `inside` of range [lower, upper) unchanged; t == lower, a_to_b
+// @verif prop=C11 tier=quick timeout=300
+#[kani::proof]
+#[kani::unwind(34)]
+#[kani::stub(alloc::fmt::format, stub_format)]
+#[kani::stub(<anchor_lang::error::Error as core::convert::From<::whirlpool::errors::ErrorCode>>::from, stub_err_from_code)]
+#[kani::stub(<::whirlpool::pinocchio::errors::UnifiedError as core::convert::From<::whirlpool::errors::ErrorCode>>::from, stub_unified_from_code)]
+fn c11_l2_r2_lower_down() {
+    r_l2::<Anchor>(Some(2), LOWER, true);
+}
+
+/// L2 reward 2: `next_tick_cross_update` flips reward outside of an initialised reward; crossing leaves reward `inside` of range [lower, upper) unchanged; t == lower, b_to_a
+// @verif prop=C11 tier=quick timeout=300
+#[kani::proof]
+#[kani::unwind(34)]
+#[kani::stub(alloc::fmt::format, stub_format)]
+#[kani::stub(<anchor_lang::error::Error as core::convert::From<::whirlpool::errors::ErrorCode>>::from, stub_err_from_code)]
+#[kani::stub(<::whirlpool::pinocchio::errors::UnifiedError as core::convert::From<::whirlpool::errors::ErrorCode>>::from, stub_unified_from_code)]
+fn c11_l2_r2_lower_up() {
+    r_l2::<Anchor>(Some(2), LOWER, false);
+}
+
+/// L2 reward 2: `next_tick_cross_update` flips reward outside of an initialised reward; crossing leaves reward `inside` of range [lower, upper) unchanged; t == upper, a_to_b
+// @verif prop=C11 tier=quick timeout=300
+#[kani::proof]
+#[kani::unwind(34)]
+#[kani::stub(alloc::fmt::format, stub_format)]
+#[kani::stub(<anchor_lang::error::Error as core::convert::From<::whirlpool::errors::ErrorCode>>::from, stub_err_from_code)]
+#[kani::stub(<::whirlpool::pinocchio::errors::UnifiedError as core::convert::From<::whirlpool::errors::ErrorCode>>::from, stub_unified_from_code)]
+fn c11_l2_r2_upper_down() {
+    r_l2::<Anchor>(Some(2), UPPER, true);
+}
+
+/// L2 reward 2: `next_tick_cross_update` flips reward outside of an initialised reward; crossing leaves reward `inside` of range [lower, upper) unchanged; t == upper, b_to_a
+// @verif prop=C11 tier=quick timeout=300
+#[kani::proof]
+#[kani::unwind(34)]
+#[kani::stub(alloc::fmt::format, stub_format)]
+#[kani::stub(<anchor_lang::error::Error as core::convert::From<::whirlpool::errors::ErrorCode>>::from, stub_err_from_code)]
+#[kani::stub(<::whirlpool::pinocchio::errors::UnifiedError as core::convert::From<::whirlpool::errors::ErrorCode>>::from, stub_unified_from_code)]
+fn c11_l2_r2_upper_up() {
+    r_l2::<Anchor>(Some(2), UPPER, false);
+}
+
+/// L2 reward 0: crossing a tick that is neither bound (below / above / strictly inside the range) leaves reward `inside` unchanged; a_to_b
+// @verif prop=C11 tier=quick timeout=300
+#[kani::proof]
+#[kani::unwind(34)]
+#[kani::stub(alloc::fmt::format, stub_format)]
+#[kani::stub(<anchor_lang::error::Error as core::convert::From<::whirlpool::errors::ErrorCode>>::from, stub_err_from_code)]
+#[kani::stub(<::whirlpool::pinocchio::errors::UnifiedError as core::convert::From<::whirlpool::errors::ErrorCode>>::from, stub_unified_from_code)]
+fn c11_l2_r0_other_down() {
+    r_l2::<Anchor>(Some(0), OTHER, true);
+}
+
+/// L2 reward 0: crossing a tick that is neither bound (below / above / strictly inside the range) leaves reward `inside` unchanged; b_to_a
+// @verif prop=C11 tier=quick timeout=300
+#[kani::proof]
+#[kani::unwind(34)]
+#[kani::stub(alloc::fmt::format, stub_format)]
+#[kani::stub(<anchor_lang::error::Error as core::convert::From<::whirlpool::errors::ErrorCode>>::from, stub_err_from_code)]
+#[kani::stub(<::whirlpool::pinocchio::errors::UnifiedError as core::convert::From<::whirlpool::errors::ErrorCode>>::from, stub_unified_from_code)]
+fn c11_l2_r0_other_up() {
+    r_l2::<Anchor>(Some(0), OTHER, false);
+}
+
+/// L2 reward 1: crossing a tick that is neither bound (below / above / strictly inside the range) leaves reward `inside` unchanged; a_to_b
+// @verif prop=C11 tier=quick timeout=300
+#[kani::proof]
+#[kani::unwind(34)]
+#[kani::stub(alloc::fmt::format, stub_format)]
+#[kani::stub(<anchor_lang::error::Error as core::convert::From<::whirlpool::errors::ErrorCode>>::from, stub_err_from_code)]
+#[kani::stub(<::whirlpool::pinocchio::errors::UnifiedError as core::convert::From<::whirlpool::errors::ErrorCode>>::from, stub_unified_from_code)]
+fn c11_l2_r1_other_down() {
+    r_l2::<Anchor>(Some(1), OTHER, true);
+}
+
+/// L2 reward 1: crossing a tick that is neither bound (below / above / strictly inside the range) leaves reward `inside` unchanged; b_to_a
+// @verif prop=C11 tier=quick timeout=300
+#[kani::proof]
+#[kani::unwind(34)]
+#[kani::stub(alloc::fmt::format, stub_format)]
+#[kani::stub(<anchor_lang::error::Error as core::convert::From<::whirlpool::errors::ErrorCode>>::from, stub_err_from_code)]
+#[kani::stub(<::whirlpool::pinocchio::errors::UnifiedError as core::convert::From<::whirlpool::errors::ErrorCode>>::from, stub_unified_from_code)]
+fn c11_l2_r1_other_up() {
+    r_l2::<Anchor>(Some(1), OTHER, false);
+}
+
+/// L2 reward 2: crossing a tick that is neither bound (below / above / strictly inside the range) leaves reward `inside` unchanged; a_to_b
+// @verif prop=C11 tier=quick timeout=300
+#[kani::proof]
+#[kani::unwind(34)]
+#[kani::stub(alloc::fmt::format, stub_format)]
+#[kani::stub(<anchor_lang::error::Error as core::convert::From<::whirlpool::errors::ErrorCode>>::from, stub_err_from_code)]
+#[kani::stub(<::whirlpool::pinocchio::errors::UnifiedError as core::convert::From<::whirlpool::errors::ErrorCode>>::from, stub_unified_from_code)]
+fn c11_l2_r2_other_down() {
+    r_l2::<Anchor>(Some(2), OTHER, true);
+}
+
+/// L2 reward 2: crossing a tick that is neither bound (below / above / strictly inside the range) leaves reward `inside` unchanged; b_to_a
+// @verif prop=C11 tier=quick timeout=300
+#[kani::proof]
+#[kani::unwind(34)]
+#[kani::stub(alloc::fmt::format, stub_format)]
+#[kani::stub(<anchor_lang::error::Error as core::convert::From<::whirlpool::errors::ErrorCode>>::from, stub_err_from_code)]
+#[kani::stub(<::whirlpool::pinocchio::errors::UnifiedError as core::convert::From<::whirlpool::errors::ErrorCode>>::from, stub_unified_from_code)]
+fn c11_l2_r2_other_up() {
+    r_l2::<Anchor>(Some(2), OTHER, false);
+}
+
+/// L3 `next_tick_modify_liquidity_update`: reward outside := growth_global (all 3) iff tick_index <= cur on first liquidity; untouched while gross != 0
+// @verif prop=C11 tier=quick timeout=300
+#[kani::proof]
+#[kani::unwind(34)]
+#[kani::stub(alloc::fmt::format, stub_format)]
+#[kani::stub(<anchor_lang::error::Error as core::convert::From<::whirlpool::errors::ErrorCode>>::from, stub_err_from_code)]
+#[kani::stub(<::whirlpool::pinocchio::errors::UnifiedError as core::convert::From<::whirlpool::errors::ErrorCode>>::from, stub_unified_from_code)]
+fn c11_l3_modify_anchor() {
+    r_l3::<Anchor>();
+}
+
+/// frame `next_reward_growths_inside`: depends on a bound tick only through `initialized` and `reward_growths_outside`
+// @verif prop=C11 tier=quick timeout=300
+#[kani::proof]
+#[kani::unwind(34)]
+#[kani::stub(alloc::fmt::format, stub_format)]
+#[kani::stub(<anchor_lang::error::Error as core::convert::From<::whirlpool::errors::ErrorCode>>::from, stub_err_from_code)]
+#[kani::stub(<::whirlpool::pinocchio::errors::UnifiedError as core::convert::From<::whirlpool::errors::ErrorCode>>::from, stub_unified_from_code)]
+fn c11_frame_inside_anchor() {
+    r_frame::<Anchor>();
+}
+
+/// L4 `next_position_modify_liquidity_update` (3 rewards): amount_owed += F(L, inside - checkpoint mod 2^128), +0 when F overflows (dropped, never inflated); checkpoint := inside; F = uninterpreted `checked_mul_shift_right`
+// @verif prop=C11 tier=quick timeout=300
+#[kani::proof]
+#[kani::unwind(34)]
+#[kani::stub(alloc::fmt::format, stub_format)]
+#[kani::stub(<anchor_lang::error::Error as core::convert::From<::whirlpool::errors::ErrorCode>>::from, stub_err_from_code)]
+#[kani::stub(<::whirlpool::pinocchio::errors::UnifiedError as core::convert::From<::whirlpool::errors::ErrorCode>>::from, stub_unified_from_code)]
+#[kani::stub(::whirlpool::math::bit_math::checked_mul_shift_right, stub_mul_shift)]
+fn c11_l4_credit_anchor() {
+    r_l4::<Anchor>();
+}
+
+/// L3 `pino_next_tick_modify_liquidity_update`: reward outside := growth_global (all 3) iff tick_index <= cur on first liquidity; untouched while gross != 0
+// @verif prop=C11 tier=quick timeout=300
+#[kani::proof]
+#[kani::unwind(34)]
+#[kani::stub(alloc::fmt::format, stub_format)]
+#[kani::stub(<anchor_lang::error::Error as core::convert::From<::whirlpool::errors::ErrorCode>>::from, stub_err_from_code)]
+#[kani::stub(<::whirlpool::pinocchio::errors::UnifiedError as core::convert::From<::whirlpool::errors::ErrorCode>>::from, stub_unified_from_code)]
+fn c11_l3_modify_pino() {
+    r_l3::<Pino>();
+}
+
+/// frame `pino_next_reward_growths_inside`: depends on a bound tick only through `initialized` and `reward_growths_outside`
+// @verif prop=C11 tier=quick timeout=300
+#[kani::proof]
+#[kani::unwind(34)]
+#[kani::stub(alloc::fmt::format, stub_format)]
+#[kani::stub(<anchor_lang::error::Error as core::convert::From<::whirlpool::errors::ErrorCode>>::from, stub_err_from_code)]
+#[kani::stub(<::whirlpool::pinocchio::errors::UnifiedError as core::convert::From<::whirlpool::errors::ErrorCode>>::from, stub_unified_from_code)]
+fn c11_frame_inside_pino() {
+    r_frame::<Pino>();
+}
+
+/// L4 `pino_next_position_modify_liquidity_update` (3 rewards): amount_owed += F(L, inside - checkpoint mod 2^128), +0 when F overflows (dropped, never inflated); checkpoint := inside; F = uninterpreted `checked_mul_shift_right`
+// @verif prop=C11 tier=quick timeout=300
+#[kani::proof]
+#[kani::unwind(34)]
+#[kani::stub(alloc::fmt::format, stub_format)]
+#[kani::stub(<anchor_lang::error::Error as core::convert::From<::whirlpool::errors::ErrorCode>>::from, stub_err_from_code)]
+#[kani::stub(<::whirlpool::pinocchio::errors::UnifiedError as core::convert::From<::whirlpool::errors::ErrorCode>>::from, stub_unified_from_code)]
+#[kani::stub(::whirlpool::math::bit_math::checked_mul_shift_right, stub_mul_shift)]
+fn c11_l4_credit_pino() {
+    r_l4::<Pino>();
+}
+
+/// `pino_next_reward_growths_inside` == `next_reward_growths_inside` on every pair of stored ticks, indices, current tick and reward infos (same bytes)
+// @verif prop=C11 tier=quick timeout=300
+#[kani::proof]
+#[kani::unwind(34)]
+#[kani::stub(alloc::fmt::format, stub_format)]
+#[kani::stub(<anchor_lang::error::Error as core::convert::From<::whirlpool::errors::ErrorCode>>::from, stub_err_from_code)]
+#[kani::stub(<::whirlpool::pinocchio::errors::UnifiedError as core::convert::From<::whirlpool::errors::ErrorCode>>::from, stub_unified_from_code)]
+fn c11_pino_equiv_reward_inside() {
+    let lo = any_tick();
+    let up = any_tick();
+    let tl: i32 = kani::any();
+    let tu: i32 = kani::any();
+    let cur: i32 = kani::any();
+    let rw = Rw::any();
+    let a = Anchor::reward_inside(cur, &lo, tl, &up, tu, &rw);
+    let p = Pino::reward_inside(cur, &lo, tl, &up, tu, &rw);
+    assert!(a[0] == p[0] && a[1] == p[1] && a[2] == p[2]);
+    kani::cover!(a[0] != 0 && a[1] != a[2] && t_init(&lo) && !t_init(&up), "non-trivial values");
+}
+
+/// `calculate_collect_reward` of collect_reward and of v2/collect_reward == (min(owed, vault), owed - min(owed, vault)) for all u64 pairs
+// @verif prop=C11 tier=quick timeout=300
+#[kani::proof]
+#[kani::unwind(34)]
+#[kani::stub(alloc::fmt::format, stub_format)]
+#[kani::stub(<anchor_lang::error::Error as core::convert::From<::whirlpool::errors::ErrorCode>>::from, stub_err_from_code)]
+#[kani::stub(<::whirlpool::pinocchio::errors::UnifiedError as core::convert::From<::whirlpool::errors::ErrorCode>>::from, stub_unified_from_code)]
+fn c11_collect_reward_min() {
+    let owed: u64 = kani::any();
+    let vault: u64 = kani::any();
+    let ck: u128 = kani::any();
+    let pr = PositionRewardInfo { growth_inside_checkpoint: ck, amount_owed: owed };
+    let v1 = verif_calculate_collect_reward(pr, vault);
+    let v2 = verif_calculate_collect_reward_v2(pr, vault);
+    assert!(v1 == collect_spec(owed, vault));
+    assert!(v2 == collect_spec(owed, vault));
+    assert!(v1.0 <= vault && v1.0 as u128 + v1.1 as u128 == owed as u128);
+    kani::cover!(owed > vault && vault > 0, "vault short");
+    kani::cover!(owed <= vault && owed > 0, "paid in full");
+}
+
+/// `next_whirlpool_reward_infos` structure (timestamp check, no-op cases, growth += F(dt, emissions, liquidity) wrapping, overflow dropped) with `checked_mul_div` uninterpreted, and `pino_next_whirlpool_reward_growth_global` agrees on the same 653 account bytes
+// @verif prop=C11 tier=quick timeout=300
+#[kani::proof]
+#[kani::unwind(34)]
+#[kani::stub(alloc::fmt::format, stub_format)]
+#[kani::stub(<anchor_lang::error::Error as core::convert::From<::whirlpool::errors::ErrorCode>>::from, stub_err_from_code)]
+#[kani::stub(<::whirlpool::pinocchio::errors::UnifiedError as core::convert::From<::whirlpool::errors::ErrorCode>>::from, stub_unified_from_code)]
+#[kani::stub(::whirlpool::math::bit_math::checked_mul_div, stub_mul_div)]
+fn c11_next_reward_infos() {
+    nwri();
+}
+
+/// vacuity twin: reward growth while in range DOES change `inside` — must FAIL
+// @verif prop=C11 tier=quick timeout=300 twin
+#[kani::proof]
+#[kani::unwind(34)]
+#[kani::stub(alloc::fmt::format, stub_format)]
+#[kani::stub(<anchor_lang::error::Error as core::convert::From<::whirlpool::errors::ErrorCode>>::from, stub_err_from_code)]
+#[kani::stub(<::whirlpool::pinocchio::errors::UnifiedError as core::convert::From<::whirlpool::errors::ErrorCode>>::from, stub_unified_from_code)]
+fn c11_twin_must_fail() {
+    let lo = any_tick();
+    let up = any_tick();
+    let tl: i32 = kani::any();
+    let tu: i32 = kani::any();
+    let cur: i32 = kani::any();
+    let rw = Rw::any();
+    let x: u128 = kani::any();
+    kani::assume(tl <= cur && cur < tu && t_init(&lo) && t_init(&up));
+    let g = rw.growths();
+    let rw1 = rw.with_growths(&[g[0].wrapping_add(x), g[1], g[2]]);
+    let i0 = Anchor::reward_inside(cur, &lo, tl, &up, tu, &rw);
+    let i1 = Anchor::reward_inside(cur, &lo, tl, &up, tu, &rw1);
+    assert!(i0[0] == i1[0], "twin: in-range reward growth must change inside");
+}
